@@ -301,15 +301,27 @@ def check_theorems(pid):
 
 
 # ------------------------------------------------------------------ scenarios
+JOB_TIMEOUT = {"quick": 900, "thorough": 7200}
+CUR_TIER = ["quick"]
+
+
 def harness_cmd(args, outfile):
     with open(outfile, "w") as f:
-        r = subprocess.run([HARNESS_BIN] + args, stdout=f, stderr=subprocess.PIPE, text=True, timeout=3000)
+        try:
+            r = subprocess.run([HARNESS_BIN] + args, stdout=f, stderr=subprocess.PIPE, text=True,
+                               timeout=JOB_TIMEOUT[CUR_TIER[0]])
+        except subprocess.TimeoutExpired:
+            return 124, "timed out after %d s (the implementation does not terminate on this scenario family?)" % JOB_TIMEOUT[CUR_TIER[0]]
     return r.returncode, r.stderr[-2000:]
 
 
 def runner_cmd(zob, infile, outfile):
     with open(infile) as fi, open(outfile, "w") as fo:
-        r = subprocess.run([RUNNER_BIN, zob], stdin=fi, stdout=fo, stderr=subprocess.PIPE, text=True, timeout=3000)
+        try:
+            r = subprocess.run([RUNNER_BIN, zob], stdin=fi, stdout=fo, stderr=subprocess.PIPE, text=True,
+                               timeout=JOB_TIMEOUT[CUR_TIER[0]])
+        except subprocess.TimeoutExpired:
+            return 124, "model runner timed out"
     return r.returncode, r.stderr[-2000:]
 
 
@@ -488,6 +500,7 @@ def write_replay(pid, tier, seed, fail, idx):
 
 def run_property(pid, tier, seed, replay=None):
     t0 = time.time()
+    CUR_TIER[0] = tier
     cfg = PROPS.CONFIG[pid]
     wdir = os.path.join(WORK, pid)
     replay_body = json.load(open(replay)) if replay else None   # read before the work dir is cleared
